@@ -152,6 +152,8 @@ impl SymbolList {
                     // findest smallest symbol size to hold data with base256
                     s.capacity().min >= input_len
                 })
+                // a more compact mode may still fit the data into the largest symbol
+                .or_else(|| self.symbols.iter().next_back())
                 .map(SymbolSize::num_data_codewords)
         }
     }
